@@ -76,6 +76,15 @@ class Variable(_Attrs):
             self._cells.clear()
             for i, v in enumerate(val): self[i] = v
             return
+        if isinstance(key, tuple) and key and isinstance(key[-1], slice) and key[-1] == slice(None) and len(key) == len(self.dimensions):
+            # row assignment var[i, ..., :] = sequence  (last dimension is fixed-size)
+            vals = list(val)
+            n = self._dimlen(len(key) - 1)
+            if len(vals) != n:
+                raise ValueError(f'shape mismatch: cannot assign {len(vals)} values to a row of {n}')
+            for j, v in enumerate(vals):
+                self[tuple(key[:-1]) + (j,)] = v
+            return
         key = self._norm(key)
         assert len(key) == len(self.dimensions), (key, self.dimensions)
         for i, k in enumerate(key):
